@@ -415,6 +415,24 @@ func scanMapRanges(dir string, patterns []string, out string) {
 					if _, ok := x.X.Type().Underlying().(*types.Map); ok {
 						sites = append(sites, site{pkg, fn.String(), prog.Fset.Position(x.Pos()).String(), "map-range"})
 					}
+				case *ssa.Store:
+					// a write to a package-level variable outside package initialisation: state that survives a compilation
+					if g, ok := x.Addr.(*ssa.Global); ok && fn.Name() != "init" && !strings.HasPrefix(fn.Name(), "init#") && fn.Synthetic == "" {
+						sites = append(sites, site{pkg, fn.String(), prog.Fset.Position(x.Pos()).String(), "global-write:" + g.Name()})
+					}
+				case *ssa.MapUpdate:
+					if u, ok := x.Map.(*ssa.UnOp); ok {
+						if g, ok := u.X.(*ssa.Global); ok && fn.Name() != "init" && !strings.HasPrefix(fn.Name(), "init#") {
+							sites = append(sites, site{pkg, fn.String(), prog.Fset.Position(x.Pos()).String(), "global-map-update:" + g.Name()})
+						}
+					}
+				case *ssa.Call:
+					// sync.Map / sync.Pool methods on a package-level variable
+					if c := x.Call.StaticCallee(); c != nil && c.Pkg != nil && c.Pkg.Pkg.Path() == "sync" && len(x.Call.Args) > 0 {
+						if g, ok := x.Call.Args[0].(*ssa.Global); ok && (c.Name() == "Store" || c.Name() == "LoadOrStore" || c.Name() == "Swap" || c.Name() == "CompareAndSwap") && fn.Name() != "init" {
+							sites = append(sites, site{pkg, fn.String(), prog.Fset.Position(x.Pos()).String(), "global-syncmap-write:" + g.Name()})
+						}
+					}
 				case *ssa.Go:
 					sites = append(sites, site{pkg, fn.String(), prog.Fset.Position(x.Pos()).String(), "go"})
 				case *ssa.Select:
